@@ -36,7 +36,7 @@ TKINDS = ['plain', 'diag', 'hard', 'meta', 'nested', 'lazy', 'empty', 'rank0', '
 
 def cases(tier, seed):
     out = []
-    reps = 2 if tier == 'quick' else 120
+    reps = 2 if tier == 'quick' else 600
     fac = {'sym': SYMS, 'tkind': TKINDS, 'level': [0, 1, 2], 'dtype': ['real', 'complex'], 'channel': ['to_dict', 'to_dict_config', 'resolve_ops', 'legacy', 'split_combine', 'generic']}
     for rep in range(reps):
         for i, row in enumerate(cat.covering(fac, seed=seed * 11 + rep, strength=2)):
